@@ -469,6 +469,8 @@ def dual_options(vk, cfg):
         def check_field(fd, dm_cells, dm_points, dim):
             """the dual field lives on the expected dual mesh and interpolates its own nodal values"""
             rd = fd.region
+            if np.shape(fd.values) != (len(dm_points), dim) or np.shape(rd.mesh.cells) != np.shape(dm_cells):
+                return False
             V = rng.random((len(dm_points), dim)) - 0.4
             fd.values[...] = V
             want = np.einsum("cai,aqc->iqc", V[dm_cells], np.broadcast_to(rd.h, rd.h.shape[:2] + (len(dm_cells),)))
